@@ -176,7 +176,27 @@ func c13CheckWrite(c c13W, s *pbt.Session) error {
 	var rec hx.RecWriter
 	errs, _, _ := c13RunWrite(c, &rec)
 	if !allNil(errs) {
-		return pbt.Failf("C13/harness", "fault-free run failed: %v", errs)
+		return pbt.Failf("C13/fault-free-run-failed", "a run without any fault failed (after earlier faulted runs in this process): %v", errs)
+	}
+	{
+		file := rec.Buf.Bytes()
+		ok := true
+		if c.Armor {
+			b, derr := refage.Dearmor(string(file))
+			ok, file = derr == nil, b
+		}
+		if ok {
+			for _, r := range c.Recs {
+				if r.Real() {
+					got, derr := refage.Decrypt(file, hx.ThePool().RefKey(r))
+					ok = derr == nil && bytes.Equal(got, hx.PRG(13, c.PlainLen))
+					break
+				}
+			}
+		}
+		if !ok {
+			return pbt.Failf("C13/state-left-by-failed-run", "a run without any fault, executed after faulted runs in the same process, does not produce a valid file: a failed write left state behind")
+		}
 	}
 	st.Sample("write-case", c)
 	W := len(rec.Calls)
@@ -513,6 +533,40 @@ func c13CheckRead(c c13R, s *pbt.Session) error {
 	return nil
 }
 
+// the armor writer alone, under any write history including none at all
+type c13AW struct {
+	Len     int    `json:"len"`
+	Segs    []int  `json:"segs"`
+	NoWrite bool   `json:"noWrite"`
+	FailAt  int    `json:"failAt"`
+	Shape   string `json:"shape"`
+}
+
+func c13CheckArmorWriter(c c13AW, st *stats.Run) error {
+	data := hx.PRG(uint64(c.Len), c.Len)
+	if c.NoWrite {
+		data = nil
+	}
+	fw := &hx.FaultWriter{FailAt: c.FailAt, ByteLimit: -1}
+	c13Shapes(c.Shape, fw)
+	w := armor.NewWriter(fw)
+	var errs []error
+	if !c.NoWrite {
+		_, err := writeSegs(w, data, c.Segs)
+		errs = append(errs, err)
+	}
+	errs = append(errs, w.Close())
+	st.Case(fw.Failed > 0, stats.HashJSON(c), "aw:armor-writer", "aw:shape="+c.Shape, fmt.Sprintf("aw:noWrite=%v", c.NoWrite), fmt.Sprintf("aw:fault-hit=%v", fw.Failed > 0))
+	if !allNil(errs) {
+		return nil
+	}
+	got, derr := refage.Dearmor(fw.Buf.String())
+	if derr != nil || !bytes.Equal(got, data) {
+		return pbt.Failf("C13/silent-loss", "armor writer (noWrite=%v, %d bytes, segs %v): destination write %d failed (%s), Write and Close reported success, but the destination holds %q (%v)", c.NoWrite, len(data), c.Segs, c.FailAt, c.Shape, trunc(fw.Buf.Bytes()), derr)
+	}
+	return nil
+}
+
 // de-armoring alone (no decryption layer above that could mask the armor
 // reader's own state)
 type c13A struct {
@@ -615,6 +669,27 @@ func TestC13(t *testing.T) {
 		return c13W{PlainLen: l, Recs: c05GenRecs(t), Segs: genSegs(t, l), Armor: rapid.Bool().Draw(t, "armor"), KeepGoing: rapid.Bool().Draw(t, "keepGoing"), Call: -1, Byte: -1, Enumerate: true}
 	}, wr)
 
+	pbt.Each(s, "armor-writer-faults", func(yield func(c13AW)) {
+		n := 0
+		for _, l := range []int{0, 1, 48, 49, 100} {
+			for _, segs := range [][]int{nil, {0}, {1}, {1, 1}, {48}} {
+				for _, nw := range []bool{false, true} {
+					if nw && (l != 0 || segs != nil) {
+						continue
+					}
+					for fa := 0; fa < 8; fa++ {
+						for _, sh := range []string{"zero", "partial", "once", "once-partial"} {
+							if s.Mine(n) {
+								yield(c13AW{Len: l, Segs: segs, NoWrite: nw, FailAt: fa, Shape: sh})
+							}
+							n++
+						}
+					}
+				}
+			}
+		}
+		s.St.Exhaust("the armor writer alone: 5 lengths x 5 write histories (and Close without Write) x destination failing at each of its first 8 writes x 4 shapes", int64(n))
+	}, func(c c13AW) error { return c13CheckArmorWriter(c, s.St) })
 	dearmor := func(c c13A) error { return c13CheckDearmor(c, s.St) }
 	pbt.Regress(s, "dearmor-faults", dearmor)
 	pbt.Each(s, "dearmor-faults", func(yield func(c13A)) {
